@@ -120,6 +120,9 @@ def same_sign_quat(qa, qb):
     return float(np.dot(qa, qb)) >= 0.0
 
 
+STRICT_ANGLES = [False]
+
+
 def cmp_pose(sa, sb, cycles=1, measurement=False):
     """Compare two pose specs.  Returns None if equal under the stated exemptions, else a message."""
     if (sa is None) != (sb is None):
@@ -136,6 +139,12 @@ def cmp_pose(sa, sb, cycles=1, measurement=False):
         k = cmp_floats_bitwise(a[:2], b[:2])
         if k >= 0:
             return "component %d: %r vs %r" % (k, xf(a[k]), xf(b[k]))
+        if STRICT_ANGLES[0]:
+            # a stored angle is already in [-pi, pi]: it is written and read back exactly; only +pi may come back as -pi
+            x, y = xf(a[2]), xf(b[2])
+            if not (x == y or (math.isnan(x) and math.isnan(y)) or (abs(x) == math.pi and abs(y) == math.pi)):
+                return "angle %r vs %r (a stored angle must round-trip exactly)" % (x, y)
+            return None
         if not angle_equiv(xf(a[2]), xf(b[2]), cycles):
             return "angle %r vs %r (not congruent within %d*4 ulp(pi))" % (xf(a[2]), xf(b[2]), cycles)
         return None
@@ -176,7 +185,15 @@ def cmp_matrix(ma, mb):
 EDGE_CLASS = {"odometry": "odometry", "numeric_odometry": "odometry", "landmark": "landmark", "numeric_landmark": "landmark"}
 
 
-def cmp_graph_specs(a, b, cycles=1, check_params=True):
+def cmp_graph_specs(a, b, cycles=1, check_params=True, strict_angles=False):
+    STRICT_ANGLES[0] = strict_angles
+    try:
+        return _cmp_graph_specs(a, b, cycles, check_params)
+    finally:
+        STRICT_ANGLES[0] = False
+
+
+def _cmp_graph_specs(a, b, cycles=1, check_params=True):
     """Field-by-field comparison of two workload specs (exported vs imported).
 
     Not compared (the format has no field for them): Vertex.fixed, the offset_id of 2-D landmark edges.
